@@ -61,6 +61,14 @@ def run(ctx):
     ck.declined += ['faults inside zstd/OpenSSL', 'close() results', 'ENOSPC on the unlinked temp file surfacing only at close()']
     for config in ctx.configs():
         prog = ctx.prog(config)
+        # ---- h  an update marks a chunk valid only after writing all of its bytes at its own offset: the copy loop
+        #         seeks both descriptors to the chunk and moves exactly the stored size (shared with C08-f)
+        from ..rules import dlrules as _dl12
+        from ..rules.common import Lin as _Lin
+        _dl12.chunk_loop(ck, prog, config, 'C12-h', 'write_and_verify_chunk', 'src_idx->comp_length',
+                         [('read_data', 2), ('hash_update', 3), ('write_data', 3)],
+                         seek_want=[('src', _Lin({'src->data_offset': 1, 'src_idx->start': 1})),
+                                    ('tgt', _Lin({'tgt->data_offset': 1, 'tgt_idx->start': 1}))])
         sites, convs = errdisc.analyse_sites(prog)
         site_instances(sites)
         n_io = 0
